@@ -8,6 +8,7 @@ prop("C11", pkg="c11",
           "and a value crossing a 4096-byte boundary; distinct = FNV-64 of (stream, schedule, fault).",
      quick=dict(shards=16, scale=1, timeout=900),
      thorough=dict(shards=16, scale=14, timeout=3000),
+     fuzz=[('FuzzStreams', 60)],
      technique="rapid property-based differential testing against encoding/json.Decoder with generated chunk schedules and injected reader faults",
      level_text="Exploration with fault injection: tens of thousands of (stream, chunk schedule, reader fault) triples per quick run, streams built so that tokens "
                 "land on the decoder's 4 KiB read quantum and 32 KiB buffer boundaries; a framing bug that needs one particular alignment is found when the aiming "
